@@ -90,6 +90,9 @@ func copyTree(src, dst string) error {
 // runMutant applies m to a scratch copy of repo and runs the property's rules on it in a child process.
 // It returns (applicable, detected, detail).
 func runMutant(m Mutant, repo string) (bool, bool, string) {
+	if strings.HasPrefix(m.File, "@patch:") {
+		return runPatchMutant(m, repo)
+	}
 	src, err := os.ReadFile(filepath.Join(repo, m.File))
 	if err != nil {
 		return false, false, "file missing: " + m.File
@@ -132,6 +135,41 @@ func runMutant(m Mutant, repo string) (bool, bool, string) {
 	return true, false, "no violation reported: " + firstLine(text)
 }
 
+// runPatchMutant applies a unified diff (an independent seeded change) to a scratch copy.
+func runPatchMutant(m Mutant, repo string) (bool, bool, string) {
+	patch := strings.TrimPrefix(m.File, "@patch:")
+	tmp, err := os.MkdirTemp("", "pqlmut-")
+	if err != nil {
+		return true, false, err.Error()
+	}
+	defer os.RemoveAll(tmp)
+	if err := copyTree(repo, tmp); err != nil {
+		return true, false, "copy: " + err.Error()
+	}
+	ap := exec.Command("git", "apply", "--unsafe-paths", "--directory="+tmp, patch)
+	ap.Dir = "/"
+	if out, err := ap.CombinedOutput(); err != nil {
+		return false, false, "stale: patch no longer applies: " + firstLine(string(out))
+	}
+	exe, _ := os.Executable()
+	cmd := exec.Command(exe, "check", m.Property, "--tier", "quick", "--repo", tmp, "--no-evidence")
+	cmd.Env = append(os.Environ(), "VERIF_DIR="+verifDirOf(exe))
+	out, _ := cmd.CombinedOutput()
+	text := string(out)
+	for _, line := range strings.Split(text, "\n") {
+		line = strings.TrimSpace(line)
+		for _, rule := range strings.Split(m.Rule, "|") {
+			if strings.HasPrefix(line, "violation "+rule+" ") {
+				return true, true, line
+			}
+		}
+	}
+	if strings.Contains(text, "VIOLATION property="+m.Property) {
+		return true, false, "violation reported, but not by " + m.Rule + ": " + grepFirst(text, "violation ")
+	}
+	return true, false, "no violation reported: " + firstLine(text)
+}
+
 func verifDirOf(exe string) string {
 	if d := os.Getenv("VERIF_DIR"); d != "" {
 		return d
@@ -155,6 +193,31 @@ func grepFirst(s, pfx string) string {
 	return ""
 }
 
+// seededPatches lists the independent seeded changes kept under /verif/seeded/<id>/<variant>/ as patch-mutants.
+func seededPatches(vdir, id string) []Mutant {
+	dirs, _ := filepath.Glob(filepath.Join(vdir, "seeded", id, "*", "meta.json"))
+	sort.Strings(dirs)
+	var out []Mutant
+	for _, mp := range dirs {
+		b, err := os.ReadFile(mp)
+		if err != nil {
+			continue
+		}
+		var meta struct {
+			Property string `json:"property"`
+			Variant  string `json:"variant"`
+			Own      struct {
+				Rules []string `json:"rules"`
+			} `json:"own_check"`
+		}
+		if json.Unmarshal(b, &meta) != nil || len(meta.Own.Rules) == 0 {
+			continue
+		}
+		out = append(out, Mutant{ID: "seeded-" + id + "-" + meta.Variant, Property: id, Rule: strings.Join(meta.Own.Rules, "|"), File: "@patch:" + filepath.Join(filepath.Dir(mp), "patch.diff")})
+	}
+	return out
+}
+
 // Selftest runs the property's seeded-break corpus; every applicable mutant must be reported by its expected rule.
 func Selftest(id, vdir, repo string) SelftestResult {
 	var mine []Mutant
@@ -163,6 +226,7 @@ func Selftest(id, vdir, repo string) SelftestResult {
 			mine = append(mine, m)
 		}
 	}
+	mine = append(mine, seededPatches(vdir, id)...)
 	res := SelftestResult{OK: true}
 	type outT struct {
 		m                    Mutant
